@@ -918,11 +918,11 @@ class ConstructedPayloadDecoderBase(AbstractConstructedPayloadDecoder):
             idx = 0
 
             while True:  # loop over components
-                if len(namedTypes) <= idx:
-                    asn1Spec = None
-
-                elif isSetType:
+                if isSetType and namedTypes:
                     asn1Spec = namedTypes.tagMapUnique
+
+                elif len(namedTypes) <= idx:
+                    asn1Spec = None
 
                 else:
                     try:
